@@ -432,6 +432,12 @@ fn probe_counters(spec: &RunSpec, op: &Op, out: &Outcome, c: &mut Counters) {
         }
         Call::IndexPoint { .. } if out.class == Class::Panic => c.add("fault.badidx.fired", 1),
         Call::Cow if out.class == Class::Ok => c.add("fault.cow.fired", 1),
+        Call::Sibling { .. } => match out.class {
+            Class::Ok => c.add("fault.sibling.fired", 1),
+            Class::Err if out.text.starts_with("build:") => c.add("fault.sibling.build_rejected", 1),
+            Class::Err => c.add("fault.sibling.fired", 1),
+            _ => {}
+        },
         _ => {}
     }
     if !out.stub.tokens.is_empty() {
